@@ -366,3 +366,28 @@ func TestF16_MemoizedConverterMasksMissingArgument(t *testing.T) {
 		t.Fatalf("T1 is not derivable without T4, but the call succeeded from the memoized result")
 	}
 }
+
+// F17 (C05): all converters take one input and the parameter is derivable, yet the call is refused.
+// The per-argument name discounts make nested shortest paths inconsistent: resolving F1's input leads
+// through F2, whose input b:T2 - although H just produced it - is searched again and found through F1.
+func TestF17_NestedDiscountsRefuseDerivableCall(t *testing.T) {
+	type aX struct {
+		am.Struct
+		A T1
+	}
+	type bY struct {
+		am.Struct
+		B T2
+	}
+	g := func(v T3) aX { return aX{A: T1{v.ID + 10}} }
+	h := func(v T4) bY { return bY{B: T2{v.ID + 20}} }
+	f1 := func(in aX) bY { return bY{B: T2{in.A.ID + 100}} }
+	f2 := func(in bY) aX { return aX{A: T1{in.B.ID + 200}} }
+	target := am.MustFunc(am.NewFunc(func(in bY) int { return in.B.ID }))
+	for i := 0; i < 100; i++ {
+		res := target.Call(am.Named("b", T3{1}), am.Named("a", T4{2}), am.Converter(g, h, f1, f2))
+		if err := res.Err(); err != nil {
+			t.Fatalf("b:T2 is derivable through single-input converters, but the call failed: %.120s", err)
+		}
+	}
+}
